@@ -49,6 +49,31 @@ Check C12_http_decisive_none :
   forall s o : http_sig, http_decisive_mismatch s o -> http_distance s o = None.
 Print Assumptions C12_http_decisive_none.
 
+(* quirks are compared after leaving out of the SIGNATURE's list what cannot apply to the observed IP version
+   (df, id+, id-, 0+ on IPv6; flow on IPv4 — fix c12quirksv6); a difference that remains is decisive *)
+Theorem C12_tcp_quirks_by_version :
+  (forall qs, sig_quirks_for IpV6 qs = filter (fun q => negb (ipv4_only_quirk q)) qs)
+  /\ (forall qs, sig_quirks_for IpV4 qs = filter (fun q => negb (ipv6_only_quirk q)) qs)
+  /\ (forall qs, sig_quirks_for IpAny qs = qs)
+  /\ (forall s o, t_quirks o <> sig_quirks_for (t_version o) (t_quirks s) -> tcp_distance s o = None).
+Proof. exact quirks_masking_spec. Qed.
+Check C12_tcp_quirks_by_version :
+  (forall qs, sig_quirks_for IpV6 qs = filter (fun q => negb (ipv4_only_quirk q)) qs)
+  /\ (forall qs, sig_quirks_for IpV4 qs = filter (fun q => negb (ipv6_only_quirk q)) qs)
+  /\ (forall qs, sig_quirks_for IpAny qs = qs)
+  /\ (forall s o, t_quirks o <> sig_quirks_for (t_version o) (t_quirks s) -> tcp_distance s o = None).
+Print Assumptions C12_tcp_quirks_by_version.
+Theorem C12_quirks_v6_former_witness_agrees :
+  let s := w_linux IpAny (cons QDf (cons QNonZeroID nil)) in
+  (tcp_instance s (set_mss (w_linux IpV6 nil) (Some 1440)) /\ tcp_distance s (set_mss (w_linux IpV6 nil) (Some 1440)) = Some 0)
+  /\ (tcp_instance s (w_linux IpV4 (cons QDf (cons QNonZeroID nil))) /\ tcp_distance s (w_linux IpV4 (cons QDf (cons QNonZeroID nil))) = Some 0)
+  /\ tcp_distance s (w_linux IpV4 nil) = None
+  /\ tcp_distance s (w_linux IpV6 (cons QDf (cons QNonZeroID nil))) = None
+  /\ tcp_distance (w_linux IpAny (cons QFlowID (cons QEcn nil))) (w_linux IpV4 (cons QEcn nil)) = Some 0
+  /\ tcp_distance (w_linux IpAny (cons QFlowID (cons QEcn nil))) (w_linux IpV6 (cons QEcn nil)) = None.
+Proof. exact Quirks_v6_former_witness_agrees. Qed.
+Print Assumptions C12_quirks_v6_former_witness_agrees.
+
 (* ---- one non-decisive field of an instance changed: the distance is that field's own penalty
         (never below the instance's 0; exactly the fixed penalty when the new value is not admitted) ---- *)
 Theorem C12_tcp_single_field :
